@@ -346,7 +346,14 @@ class Operation(ElementBase):
                 stacklevel=1,
             )
 
-        return super().transform(transforms)
+        for t7m in transforms:
+            if isinstance(t7m, Mirror):
+                # mirrored but not put back in shape (see the warning)
+                super().mirror(t7m.normal, t7m.origin)
+            else:
+                super().transform([t7m])
+
+        return self
 
     @classmethod
     def from_series(cls, faces: List[Face]) -> "Operation":
